@@ -44,11 +44,15 @@ Module ProdP.
   Definition bHd (p a : bpc) : nat := match p with BHold | BWaitSpace => 1 | BResp => aW a | _ => 0 end.
   Definition bRs (p : bpc) : nat := match p with BResp => 1 | _ => 0 end.
   Definition bNo (p : bpc) : nat := match p with BNone => 1 | _ => 0 end.
-  Definition bLate (p : bpc) : nat := match p with BShutDrain | BShutStop | BDone => 1 | _ => 0 end.
+  Definition aL (a : bpc) : nat := match a with BShutDrain => 1 | _ => 0 end.
+  Definition aOK (a : bpc) : nat := match a with BSelect | BWaitSpace | BShutFlush | BShutDrain => 1 | _ => 0 end.
+  (* past close(bp.output); a response being handled counts as the point it was received at *)
+  Definition bLate (p a : bpc) : nat := match p with BShutDrain | BShutStop | BDone => 1 | BResp => aL a | _ => 0 end.
   Definition bDn (p : bpc) : nat := match p with BDone => 1 | _ => 0 end.
   Definition bSel (p : bpc) : nat := match p with BSelect => 1 | _ => 0 end.
-  Lemma b_spec p a : bHd p a <= 1 /\ bRs p + bNo p + bLate p + bSel p <= 1 /\ bDn p <= bLate p /\ aW a <= 1 /\
-                     bSel p + bHd p a <= 1 /\ bNo p + bHd p a <= 1 /\ bLate p + bHd p a <= 1.
+  Lemma b_spec p a : bHd p a <= 1 /\ bRs p + bNo p + bSel p <= 1 /\ bNo p + bLate p a + bSel p <= 1 /\ bDn p <= bLate p a /\ aW a <= 1 /\
+                     bSel p + bHd p a <= 1 /\ bNo p + bHd p a <= 1 /\ bLate p a + bHd p a <= 1 /\ bLate p a <= 1 /\
+                     aL a + aW a <= aOK a /\ aOK a <= 1 /\ bDn p + bRs p <= 1.
   Proof. destruct p, a; cbn; lia. Qed.
   Definition brB (p : brpc) : nat := match p with BrNet | BrSend => 1 | _ => 0 end.
   Definition brDn (p : brpc) : nat := match p with BrDone => 1 | _ => 0 end.
@@ -90,7 +94,8 @@ Module ProdP.
             b2n (pp_ref s) <= pLive (pp s);
     i_bno : bNo (bp s) = 1 -> b_buf s + b_resp s + br_set s = 0;
     (* the worker's own closes *)
-    i_out : b2n (out_closed s) <= bLate (bp s);
+    i_out : b2n (out_closed s) <= bLate (bp s) (b_after s);
+    i_after : bRs (bp s) <= aOK (b_after s);
     i_resp : b2n (resp_closed s) <= brDn (br s);
     i_stop : b2n (stop_closed s) <= bDn (bp s)
   }.
@@ -118,7 +123,7 @@ Module ProdP.
     end.
 
   Ltac destr_inv I :=
-    destruct I as [Ipanic Icount Ilate Icin Icret Icerr Icsucc Idh Ith Iph Ipm Ibh Ibrs Ibrset Itpqc Ippqc Itno Ipno2 Ipst Iref Ibno Iout Iresp Istop].
+    destruct I as [Ipanic Icount Ilate Icin Icret Icerr Icsucc Idh Ith Iph Ipm Ibh Ibrs Ibrset Itpqc Ippqc Itno Ipno2 Ipst Iref Ibno Iout Iafter Iresp Istop].
 
   Ltac pose_specs s :=
     pose proof (s_spec (sp s)); pose proof (d_spec (dp s)); pose proof (t_spec (tp s)); pose proof (p_spec (pp s));
@@ -158,7 +163,7 @@ Module ProdP.
       match goal with Hpn : b2n (panic _) = 0 |- _ =>
         let Hp := fresh "Hp" in pose proof (b2n_0 _ Hpn) as Hp; try rewrite Hp in * end;
       unfold tokens in *; unacc; rew_eqs s;
-      cbn [sM sLate sI sR sE sS s0 dH dDn tH tS tDn tNo pH pSt pNo pAct pLive aW bHd bRs bNo bLate bDn bSel brB brDn b2n orb andb] in *;
+      cbn [sM sLate sI sR sE sS s0 dH dDn tH tS tDn tNo pH pSt pNo pAct pLive aW aL aOK bHd bRs bNo bLate bDn bSel brB brDn b2n orb andb] in *;
       (constructor; red_goal; rew_goal s; red_goal; try lia; bool_goal; bool_hyps; try lia)
     end.
   Ltac go s H I :=
